@@ -382,8 +382,11 @@ def slc3(ctx: Ctx) -> None:
                    f"counterexample {verdict[1][0]} -> {verdict[1][1]}", construct="is_mine predicate")
     else:
         ctx.R.undecided("SLC-3", f"is_mine is computed in a way the rule cannot follow (a memo, a helper): {str(verdict[1])[:120]}")
-    loops = [s for s in fn.body if isinstance(s, ast.While)]
+    loops = [s for s in walk_scope(fn) if isinstance(s, ast.While)]        # at the top level or inside a try / with that only wraps it
     okl = False
+    if len(loops) != 1:
+        ctx.R.undecided("SLC-3", f"get_true_caller has {len(loops)} while loops (1 expected)")
+        return
     if len(loops) == 1:
         cv = "caller"
         atoms = [f"{cv} is None", f"is_mine({cv}.f_globals.get('__name__', ''))", f"{cv}.f_code is functools_singledispatch_wrapper"]
@@ -394,6 +397,8 @@ def slc3(ctx: Ctx) -> None:
         okl = okl and [norm(x) for x in loops[0].body] == [f"{cv} = {cv}.f_back"]
     if okl:
         ctx.R.ok("SLC-3", "skip outward while the frame is stackscope's own or functools.singledispatch's wrapper")
+    elif 'cex' in dir() and isinstance(cex, str):
+        ctx.R.undecided("SLC-3", f"the skip loop of get_true_caller is not understood: {cex[:100]}")
     else:
         ctx.R.fail("SLC-3", mod, loops[0] if loops else fn, "get_true_caller must walk f_back while the frame is internal (is_mine or the singledispatch wrapper)", construct="get_true_caller loop")
     w = mod.toplevel_assign("functools_singledispatch_wrapper")
